@@ -26,7 +26,7 @@ ASSUMPTIONS = ["trusted base: the library's fresh-construction path (checked by 
                "transient states between the public setters of a compound edit are never read"]
 FLOORS = {'quick': {'fresh-compare': 4000, 'shadow': 600, 'copy-independence': 150, 'container-read': 150},
           'thorough': {'fresh-compare': 40000, 'shadow': 6000, 'copy-independence': 1500}}
-MANDATORY_TAGS = ['kept-sizes', 'kept-sizes:given-to-another-object', 'curve', 'surface', 'volume', 'rational', 'container', 'copy', 'op:reverse', 'op:transpose', 'op:flip', 'op:insert',
+MANDATORY_TAGS = ['sampling:takes-the-value-of-another-direction', 'kept-sizes', 'kept-sizes:given-to-another-object', 'curve', 'surface', 'volume', 'rational', 'container', 'copy', 'op:reverse', 'op:transpose', 'op:flip', 'op:insert',
                   'op:remove', 'op:refine', 'op:weights', 'op:ctrlpts', 'op:delta', 'op:translate', 'op:degree', 'op:knotvector',
                   'op:container-add', 'op:container-transform', 'op:container-deepcopy', 'read-mutate-read', 'op:container-delta-one-direction']
 TECHNIQUE = ("runtime monitoring: history driver with an online differential oracle (every read of a derived view vs the same read "
@@ -273,6 +273,8 @@ def check(case, ctx):
             ops += ['reverse', 'reverse']
         if pdim == 2:
             ops += ['transpose', 'flip', 'ctrlpts2d', 'transpose', 'transpose-method']
+        if pdim >= 2:
+            ops += ['cross-sampling']
         if e['inserted']:
             ops += ['remove', 'remove']
         if cont is not None:
@@ -321,6 +323,23 @@ def check(case, ctx):
                 new = [w * rng.uniform(0.5, 2) for w in o.weights]
                 o.weights = list(new)
                 ctx.check(near(view(o, 'weights'), new, 1e-12), 'setter/weights', 'weights read back differs', what='shadow')
+            elif op == 'cross-sampling':
+                # one direction takes the sampling another direction has right now (a setter comparing with the wrong slot sees "no change")
+                dirs_ = list('uvw'[:pdim])
+                a_, b_ = rng.sample(dirs_, 2)
+                if getattr(o, 'delta_' + a_) == getattr(o, 'delta_' + b_):
+                    setattr(o, 'sample_size_' + b_, getattr(o, 'sample_size_' + b_) + 1)
+                    if rng.random() < 0.5:
+                        view(o, 'evalpts')
+                ctx.tag('sampling:takes-the-value-of-another-direction')
+                view(o, 'evalpts')
+                setattr(o, 'delta_' + a_, getattr(o, 'delta_' + b_))
+                nexp = 1
+                for d_ in dirs_:
+                    nexp *= getattr(o, 'sample_size_' + d_)
+                ctx.check(len(o.evalpts) == nexp, 'stale/evalpts/after-delta', 'evalpts read after delta_%s took the value of delta_%s: %d points for '
+                          'sample sizes %r' % (a_, b_, len(o.evalpts), [getattr(o, 'sample_size_' + d_) for d_ in dirs_]), what='fresh-equal')
+                desc = 'delta'
             elif op in ('delta', 'sample_size'):
                 if op == 'delta':
                     if pdim == 1:
